@@ -42,9 +42,10 @@ def main():
     meta["silent"] = bool(meta["patch_applies"]) and all(v["rc"] == 0 for v in meta["checks"].values())
     out_dir = os.path.join(VERIF, "refactorings", name)
     os.makedirs(out_dir, exist_ok=True)
-    shutil.copy(patch, os.path.join(out_dir, "patch.diff"))
+    if os.path.abspath(patch) != os.path.abspath(os.path.join(out_dir, "patch.diff")):
+        shutil.copy(patch, os.path.join(out_dir, "patch.diff"))
     note = patch.replace("patch", "note").replace(".diff", ".md")
-    if os.path.exists(note):
+    if os.path.exists(note) and os.path.abspath(note) != os.path.abspath(os.path.join(out_dir, "note.md")):
         shutil.copy(note, os.path.join(out_dir, "note.md"))
     meta["verif_commit"] = sh("git -C %s rev-parse --short HEAD" % VERIF)[1].strip()
     with open(os.path.join(out_dir, "meta.json"), "w") as f:
